@@ -7,15 +7,20 @@ package c07
 //             hand-written felt / felt-slice CBOR codec over all limb-width and array-header boundaries;
 //   record  : core.Write* -> every core.Get* accessor + full/partial decoders on the raw bytes -> core.Delete*,
 //             on db/memory and db/pebblev2(MemFS);
-//   reader  : valid chains through Blockchain.SanityCheckNewHeight+Store on {memory,pebblev2} x {legacy,new state},
-//             every blockchain.Reader read method, again after re-opening the Blockchain.
+//   reader  : valid chains through Blockchain.SanityCheckNewHeight+Store / Finalise on {memory,pebblev2} x {legacy,new
+//             state}, every blockchain.Reader read method, again after re-opening the Blockchain; juno gets deep
+//             copies made before the call, which must still equal the reference afterwards (put, inner_test.go);
+//   inner   : "entry present, inner collection empty" shapes (slot-less storage_diffs entries, events / messages with
+//             nil / empty inner lists) as valid blocks through every blockchain-level write path (inner_test.go).
 // The oracle is strict structural equality with an untouched reference copy (deep_test.go); the only tolerances
 // are (1) InvokeTransaction.ProofFacts nil≡empty (omitempty; the tx hash only uses len>0) and (2) the nil-vs-empty
 // identity of a block's own top-level transaction/receipt LIST (not recorded in the blob; no hash depends on it).
 
 import (
 	"fmt"
+	"os"
 	"runtime"
+	"strings"
 	"sync/atomic"
 	"testing"
 	"time"
@@ -333,7 +338,14 @@ func TestCheck(t *testing.T) {
 		"record level stores shapes that need not be valid blocks (hash validity is irrelevant to storage fidelity); validity is covered by the reader level",
 		"tolerated: InvokeTransaction.ProofFacts nil≡empty (omitempty, hash uses len>0); nil-vs-empty of a block's own top-level tx/receipt list",
 	)
+	only := os.Getenv("VERIF_C07_PHASES") // development aid: comma-separated phase names; the run is then marked incomplete
+	if only != "" {
+		r.Incomplete("VERIF_C07_PHASES=" + only + ": only these phases ran")
+	}
 	phase := func(name string, f func()) {
+		if only != "" && !strings.Contains(","+only+",", ","+name+",") {
+			return
+		}
 		t0 := time.Now()
 		f()
 		fmt.Printf("phase %-10s %6.1fs\n", name, time.Since(t0).Seconds())
@@ -351,6 +363,7 @@ func TestCheck(t *testing.T) {
 		pats = append(pats, p)
 	}
 	phase("su-pattern", func() { h.suPatternPhase(pats) })
+	phase("inner", h.innerPhase)
 	phase("record-big", rr.recordBig) // last: the only part the internal deadline may cut
 	rr.close()
 
